@@ -151,6 +151,7 @@ def install():
     sockmod = simnet.make_socket_module()
     tc.socket = sockmod
     ts.socket = sockmod
+    pl.select = simnet.FakeSelectModule
     so.createPoller = simnet.create_poller
     ut.createPoller = simnet.create_poller
     so.PIPE_NOTIFIER_ENABLED = False
